@@ -21,6 +21,7 @@ import (
 	"regexp"
 	"sort"
 	"strings"
+	"unicode"
 
 	bo "github.com/benoitkugler/webrender/html/boxes"
 
@@ -221,6 +222,16 @@ func Check(raw json.RawMessage) fw.Result {
 		// the box of ::first-letter holds characters of the element's own text: they belong to its flow
 		if t.pseudo == "first-letter" && !t.margin {
 			res.Count("first_letter_boxes", 1)
+			if t.flFloat {
+				res.Count("first_letter_float_boxes", 1)
+				if hasPunctAfterLetter(t.text) {
+					// CSS 2.1 section 5.12.2: punctuation that follows the letter belongs to ::first-letter
+					res.Count("first_letter_float_punct_boxes", 1)
+				}
+			}
+			if hasPunctAfterLetter(t.text) {
+				res.Count("first_letter_punct_boxes", 1)
+			}
 		} else if t.margin || t.pseudo != "" {
 			if s != "" {
 				res.Fail("unexpected-text", fmt.Sprintf("page %d: text %q laid out in a %s box although the document has no such content", t.page+1, t.text, map[bool]string{true: "page-margin", false: "::" + t.pseudo}[t.margin]))
@@ -493,6 +504,10 @@ func Check(raw json.RawMessage) fw.Result {
 			continue
 		}
 		perPageL[t.page]++
+		if t.transparent {
+			// color with alpha 0: a laid-out visible run, it must reach DrawText like any other
+			res.Count("transparent_textboxes_visible", 1)
+		}
 		if engine != "pango" {
 			continue
 		}
@@ -519,6 +534,9 @@ func Check(raw json.RawMessage) fw.Result {
 		}
 		draws[found].used = true
 		res.Count("draws_matched", 1)
+		if t.transparent {
+			res.Count("transparent_draws_matched", 1)
+		}
 		if t.hiddenBy != "" && strings.TrimSpace(t.text) != "" {
 			// a visible run inside a hidden element (visibility:visible declared in between)
 			res.Count("reshown_draws_matched", 1)
@@ -571,6 +589,20 @@ func Check(raw json.RawMessage) fw.Result {
 		}
 	}
 	return res
+}
+
+// hasPunctAfterLetter tells whether the text of a ::first-letter box has a punctuation character
+// after its first letter or digit ("A,", "\"A\"", "I'").
+func hasPunctAfterLetter(s string) bool {
+	seen := false
+	for _, r := range s {
+		if unicode.IsLetter(r) || unicode.IsDigit(r) {
+			seen = true
+		} else if seen && unicode.IsPunct(r) {
+			return true
+		}
+	}
+	return false
 }
 
 // lostBeforeFloat tells whether got is the expected text of the flow with exactly one contiguous run
